@@ -5,6 +5,8 @@ import PyTrie.Lemmas.CacheNoDupPres
 import PyTrie.Lemmas.PruneBodiesV
 import PyTrie.Lemmas.PruneBodiesNP
 import PyTrie.Lemmas.FreeHistory
+import PyTrie.Lemmas.PartialInv
+import PyTrie.Lemmas.PartialInvCex
 /-! # The tree-free executor (C01, C04, C06, C07 over a transcription with no tree)
 
 `Model/HexFree.lean` is `HexaryTrie.set` / `delete` / `get` as the code runs them: the trie is a root hash and a `prune`
@@ -259,5 +261,52 @@ theorem history_lockstep (H : Bytes → Bytes) (hlen : ∀ b, (H b).length = 32)
     (runF H (FWorld.init H prune) steps).1 = (runW H (freshW H prune) steps).1 ∧
     Sim (runF H (FWorld.init H prune) steps).2 (runW H (freshW H prune) steps).2 :=
   lockstep_history H hlen prune steps hgood
+
+end PyTrie.Props.Free
+
+/-! ## Partial consistency is an invariant (C07 over histories with withheld node bodies)
+
+`RootPartial` / `PartialD`: whatever the database holds under the hash of the root / of a hashed subtree is that node's
+encoding (it may hold nothing). True of every complete database, kept by removing entries, by supplying the body of a
+node of the tree, and by every `set` / `delete` — returning or raising, pruning on or off. With `Free.op_partial` (the
+tree-free executor equals the tree-carrying one on every partially consistent state) the two executors therefore stay
+equal along every history of operations interleaved with removals and re-insertions of node bodies. Two statements first
+tried were machine-refuted (`Lemmas/PartialInvCex.lean`): supplying a body needs the tree to be canonical (the child of an
+empty-path extension is unreachable by `nodeAt`), and an operation needs its writes to be consistent also with the
+*withheld* nodes of the old tree (`hold`) — `NoClobber` cannot see a node whose body is not there. -/
+namespace PyTrie.Props.Free
+open PyTrie PyTrie.Hex PyTrie.HexD PyTrie.HexW PyTrie.HexRaw PyTrie.HexFree
+
+theorem partial_of_complete_db (H : Bytes → Bytes) (T : TrieSt) (d : Dict Bytes)
+    (hcomp : Complete (stdHashing H) (blankRoot H) d T)
+    (hbk : Dict.get? d (blankRoot H) = none) (hsm : ∀ h b, Dict.get? d h = some b → b.length < 2 ^ 64) :
+    RootPartial H d T.root T.tree ∧ PartialD H d T.tree := partial_of_complete H T d hcomp hbk hsm
+
+theorem partial_kept_by_withholding (H : Bytes → Bytes) (T : TrieSt) (d : Dict Bytes) (h : Hash)
+    (hp : RootPartial H d T.root T.tree ∧ PartialD H d T.tree) :
+    RootPartial H (Dict.erase d h) T.root T.tree ∧ PartialD H (Dict.erase d h) T.tree := partial_erase H T d h hp
+
+theorem partial_kept_by_supplying (H : Bytes → Bytes) (T : TrieSt) (hc : Canon T.tree) (d : Dict Bytes) (n : Node)
+    (hp : RootPartial H d T.root T.tree ∧ PartialD H d T.tree)
+    (hnc : ∀ m : Node, hashOf H m = hashOf H n → (m = T.tree ∨ ∃ q, nodeAt T.tree q = some m) → enc H m = enc H n) :
+    RootPartial H (Dict.insert d (hashOf H n) (enc H n)) T.root T.tree ∧
+    PartialD H (Dict.insert d (hashOf H n) (enc H n)) T.tree := partial_insert_node H T hc d n hp hnc
+
+theorem partial_kept_by_op (H : Bytes → Bytes) (hlen : ∀ b, (H b).length = 32) (T : TrieSt) (hc : Canon T.tree) (key : Bytes)
+    (val : Option Bytes) (s : OpSt) (hcache : s.store.cache = none)
+    (hroot : RootPartial H s.store.base T.root T.tree) (hst : PartialD H s.store.base T.tree)
+    (hrs : RefSound (stdHashing H) T.tree (nibs key))
+    (hnc : NoClobber s.store.base (opWrites (stdHashing H) T key val))
+    (hold : ∀ (m : Node) (b : Bytes), (hashOf H m, b) ∈ opWrites (stdHashing H) T key val →
+      (m = T.tree ∨ (isHashed H m = true ∧ ∃ q, nodeAt T.tree q = some m)) → b = enc H m)
+    (hblank : isBlank (opTree (stdHashing H) T key val).1 = false → hashOf H (opTree (stdHashing H) T key val).1 ≠ blankRoot H)
+    (hbk : ∀ h b, (h, b) ∈ opWrites (stdHashing H) T key val → h ≠ blankRoot H)
+    (hsm : ∀ h b, (h, b) ∈ opWrites (stdHashing H) T key val → b.length < 2 ^ 64) :
+    (match (opSetDel (stdHashing H) (blankRoot H) T key val s).2 with
+     | .ok T' => RootPartial H (opSetDel (stdHashing H) (blankRoot H) T key val s).1.store.base T'.root T'.tree ∧
+                 PartialD H (opSetDel (stdHashing H) (blankRoot H) T key val s).1.store.base T'.tree
+     | .error _ => RootPartial H (opSetDel (stdHashing H) (blankRoot H) T key val s).1.store.base T.root T.tree ∧
+                   PartialD H (opSetDel (stdHashing H) (blankRoot H) T key val s).1.store.base T.tree) :=
+  opSetDel_partial_preserved H hlen T hc key val s hcache hroot hst hrs hnc hold hblank hbk hsm
 
 end PyTrie.Props.Free
